@@ -59,7 +59,7 @@ class Codec:
                     continue
                 fj = t["func"]["fn"]
                 tgt = self.prog.fns.get((fj.get("resolved") or fj)["path"])
-                if tgt is not None and tgt["output"].get("s") == "u8" and len(tgt["inputs"]) == 1 and tgt["inputs"][0].get("s", "").endswith("[u8]") and "impl" not in tgt:
+                if tgt is not None and tgt.get("output", {}).get("s") == "u8" and len(tgt.get("inputs", [])) == 1 and tgt["inputs"][0].get("s", "").endswith("[u8]") and "impl" not in tgt:
                     cands.setdefault(tgt["path"], set()).add(fn["path"])
         both = [p for p, s in cands.items() if len(s) == 2]
         if len(both) != 1:
@@ -281,8 +281,8 @@ def is_data_vec(c, cap):
     if not (c[0] == "app" and c[1].startswith("collect:") and "Vec<u8>" in c[1]):
         return False
     it = c[2][0]
-    if not (it[0] == "iter" and it[1] == "map" and it[2][0] == "iter" and it[2][1] == "chunks"):
-        return False
+    if not (it[0] == "iter" and it[1] == "map" and it[2][0] == "iter" and it[2][1] in ("chunks", "chunks_exact")):
+        return False   # (chunks_exact(2) == chunks(2) here: the data group is a whole number of hex pairs, checked by the regex rules)
     ch = it[2]
     if ch[3] != mk_int(2, "usize") or ch[2] != norm(group_bytes(cap, "data")):
         return False
@@ -528,7 +528,8 @@ def checksum_rules(chk, cx, rule):
         chk.unproven(rule, "checksum:shape", "the checksum is not a fold over the bytes (%s)" % fmt_term(v)[:80], where)
         return
     it, init, clo = fold[2]
-    okit = norm(it) == norm(("iter", "slice", ("sym", "*bytes", "?")))
+    base_it = norm(("iter", "slice", ("sym", "*bytes", "?")))
+    okit = norm(it) in (base_it, ("iter", "copied", base_it))
     chk.ob(rule, "the fold runs over every byte of the argument slice, once, in order", okit, key="checksum:iter", where=where, detail=fmt_term(it)[:80])
     acc = ("sym", "acc", "u8")
     b = ("sym", "b", "u8")
@@ -537,9 +538,10 @@ def checksum_rules(chk, cx, rule):
         pass
     ci = _CI()
     ci.ev, ci.st = ev, st
-    step = apply_closure(ci, clo, [acc, ("ref", ("val", b, ()), False)])
+    by_value = norm(it)[:2] == ("iter", "copied")
+    step = apply_closure(ci, clo, [acc, b] if by_value else [acc, ("ref", ("val", b, ()), False)])
     if step is None:
-        step = apply_closure(ci, clo, [acc, b])
+        step = apply_closure(ci, clo, [acc, ("ref", ("val", b, ()), False)] if by_value else [acc, b])
     aff = a3.affine(step, (acc, b)) if step is not None else None
     oks = aff is not None and aff[0] == 0 and aff[1].get(acc, 0) == 1
     chk.ob(rule, "each fold step is acc' = acc + k*b (mod 256)", oks, key="checksum:step", where=where, detail=fmt_term(step)[:80] if step is not None else "closure not evaluable")
@@ -614,10 +616,22 @@ def to_bytes_rules(chk, cx, rule):
             continue
         it_want = norm(("iter", "slice", ("seq", (("splice", P), ("elem", C)))))
         outs = targets[out_t][1:]
-        okpairs = len(outs) % 2 == 0 and all(e[1] == "push" for e in outs)
-        chk.ob(rule, "after ':' the output only receives pushes, two per loop iteration", okpairs, key="to_bytes:pairs", where=where, detail=str([e[1] for e in outs]))
-        for i in range(0, len(outs) - 1, 2):
-            hi, lo = outs[i][3][0], outs[i + 1][3][0]
+        # flatten what is appended after ':' into single elements (push x -> [x]; extend_from_slice [a, b] -> [a, b])
+        elems = []
+        okops = True
+        for e in outs:
+            if e[1] == "push":
+                elems.append(e[3][0])
+            elif e[1] == "extend_from_slice" and e[5][0] is not None and e[5][0][0] == "array":
+                elems.extend(e[5][0][1])
+            elif e[1] == "extend_from_slice" and e[5][0] is not None and e[5][0][0] == "bytes":
+                elems.extend(mk_int(b, "u8") for b in e[5][0][1])
+            else:
+                okops = False
+        okpairs = okops and len(elems) % 2 == 0
+        chk.ob(rule, "after ':' the output only receives appended bytes, two per loop iteration", okpairs, key="to_bytes:pairs", where=where, detail=str([e[1] for e in outs]))
+        for i in range(0, len(elems) - 1, 2):
+            hi, lo = elems[i], elems[i + 1]
             okh, item_h, why_h = hex_digit(hi, "hi")
             okl, item_l, why_l = hex_digit(lo, "lo")
             same = okh and okl and item_h == item_l and item_h[0] == "proj" and item_h[1][0] == "item" and norm(item_h[1][1]) == it_want
